@@ -10,15 +10,26 @@ shards, files, hosts, frontend maps guard); nothing of C05 is redefined.
 Program order of `HAProxyUpdate` (every `return` runs the deferred `config.Commit()`):
 
     Shrink                                  hosts + backends
-    1 WriteTCPServicesMaps                  guard `tcpservices.Changed()`
+    rewrite := rewriteOwed; rewriteOwed = true; if rewrite { config.ForceRewrite() }
+                                            (frontend.Maps = nil, rewriteAll, AllShardsChanged)
+    1 WriteTCPServicesMaps                  guard `tcpservices.Changed() || rewriteAll`
     2 WriteFrontendMaps                     guard `Maps != nil && !hosts.Changed() && !rootRedirectBackendChanged()`
-    3 WriteBackendMaps                      guard `backends.Changed()`, one file set per ItemsAdd backend that needs ACLs
+    3 WriteBackendMaps                      guard `backends.Changed() || rewriteAll`, one file set per visited
+                                            backend that needs ACLs (ItemsAdd; Items when rewriteAll)
     4 writeCrtLists                         every tcp port with TLS, no guard
-    5 dynUpdater.update                     runtime commands on the admin socket (Send k = 0,1,..)
+    5 dynUpdater.update                     runtime commands on the admin socket (Send k = 0,1,..);
+                                            `if rewrite { updated = false }`
     6 writeConfig                           gate `!updated || cmdCnt > 0 || Backends().Changed()`:
                                             haproxy.cfg, then ChangedShards() ascending
+      rewriteOwed = false                   only an update that gets here clears it
+      if updated && reloadOwed { updated = false }
     7 updated ⇒ return nil
-    8 ReloadQueue.Add (queue mode) or Reload (direct mode): reload command, then its result
+    8 ReloadQueue.Add (queue mode) or Reload (direct mode): reload command, then its result;
+      Reload sets reloadOwed on failure and clears it on success
+
+`Opt.repaired = false` is the code before the two `fix:` commits (5b084c3 `reloadOwed`, 17543b6
+`rewriteOwed` / `ForceRewrite`): the two flags are never looked at.  It is only used by the
+historical witnesses of Props/C12.
 
 What HAProxy holds (`run`) next to what the files hold: `run := load files` at a successful
 reload; a successful runtime command rewrites the address of one running server.
@@ -34,8 +45,9 @@ which fill the unexported `pathConfig` that `reflect.DeepEqual(&oldBackCopy, cur
 (`pcI`/`pcD`; an object acquired in a batch whose update failed before stage 3 has none).  Hosts: C05 `HStore`
 (content abstract).  One tcp service (content `want`, 0 = none) rendered into its sni map, its
 crt-list and its `listen` section of haproxy.cfg.  Backend maps: one file set per backend whose
-`conf` needs ACLs (`needACL`), holding `conf`.  haproxy.cfg also holds whether any host exists
-(`mainHosts`: the frontend references the host maps only then).
+`conf` needs ACLs (`needACL`), holding `conf`; the template dereferences `PathsMap`, set by
+WriteBackendMaps only (`pmI`/`pmD`).  haproxy.cfg also holds whether any host exists
+(`mainHosts`: the frontend references the host maps only then; rendered from the `frontend.Maps` object).
 -/
 namespace HapVerif.C12
 open HapVerif.C05
@@ -428,18 +440,6 @@ def okEv (w : FW p) : Ev p → Bool
 def allOk (o : Opt) (sh : Sh p) : FW p → List (Ev p) → Bool
   | _, [] => true
   | w, e :: es => okEv w e && allOk o sh (step o sh w e) es
-
-/-- the fault points after which the property holds (see Props/C12) -/
-def Fault.good : Fault → Bool
-  | .none => true
-  | .admin _ => true
-  | _ => false
-
-/-- faults of a history: in queue mode the reload runs in the queue worker, where it may fail -/
-def goodEv (o : Opt) : Ev p → Bool
-  | .upd f => f.good
-  | .qrun f => o.queue && (f.good || f.isReload)
-  | _ => true
 
 /-! ### the Spec: files = rendering of the in-memory model, HAProxy = the files -/
 
